@@ -160,9 +160,35 @@ class ScriptedEnv(_gym_env_base()):
         return self._obs(), scripted_reward(self.env_id, self.episode, self.t), term, trunc, {}
 
 
+LONG = 10 ** 6      # an episode that does not end within any budget used here
+
+
+def episode_lengths(ep_len, num_envs: int, mode: str = "stagger") -> list[int]:
+    """per sub-environment episode lengths: where and when episodes end inside a vector environment
+    stagger    : sub-env i ends after ep_len + i steps (index 0 first, everybody at a different time)
+    reverse    : the highest index ends first
+    last-only  : only the last sub-environment ever finishes an episode
+    first-only : only sub-environment 0 ever finishes an episode
+    middle-only: only sub-environment num_envs // 2 does"""
+    if isinstance(ep_len, (list, tuple)):
+        return [int(x) for x in ep_len]
+    n = int(num_envs)
+    if mode == "stagger":
+        return [ep_len + i for i in range(n)]
+    if mode == "reverse":
+        return [ep_len + (n - 1 - i) for i in range(n)]
+    if mode == "last-only":
+        return [LONG] * (n - 1) + [ep_len]
+    if mode == "first-only":
+        return [ep_len] + [LONG] * (n - 1)
+    if mode == "middle-only":
+        return [ep_len if i == n // 2 else LONG for i in range(n)]
+    raise KeyError(mode)
+
+
 def _make_sub(family, action_kind, ep_len, env_id):
     # sub-environments of a vector env do not record: the vector env records num_envs per call
-    return ScriptedEnv(family, action_kind, ep_len + env_id, env_id, strict=True, record=False)
+    return ScriptedEnv(family, action_kind, ep_len, env_id, strict=True, record=False)
 
 
 def _sync_vector_base():
@@ -173,9 +199,12 @@ def _sync_vector_base():
 class CountingSyncVectorEnv(_sync_vector_base()):
     """SyncVectorEnv that reports every reset/step to REC (a step stands for num_envs env steps)"""
 
-    def __init__(self, family: str = "vector", action_kind: str = "discrete", num_envs: int = 2, ep_len: int = 7):
-        fns = [functools.partial(_make_sub, family, action_kind, ep_len, i) for i in range(num_envs)]
+    def __init__(self, family: str = "vector", action_kind: str = "discrete", num_envs: int = 2, ep_len=7,
+                 mode: str = "stagger"):
+        lens = episode_lengths(ep_len, num_envs, mode)
+        fns = [functools.partial(_make_sub, family, action_kind, lens[i], i) for i in range(num_envs)]
         super().__init__(fns)
+        self.episode_lengths = lens
         self.family, self.action_kind, self.ep_len = family, action_kind, ep_len
         self.n_vector_steps = 0
 
@@ -189,11 +218,11 @@ class CountingSyncVectorEnv(_sync_vector_base()):
         return super().step(actions)
 
 
-def make_single_env(family: str, action_kind: str, num_envs: int | None, ep_len: int = 7):
+def make_single_env(family: str, action_kind: str, num_envs: int | None, ep_len: int = 7, mode: str = "stagger"):
     """num_envs=None -> a plain (non-vectorised) Gymnasium env; otherwise an in-process vector env"""
     if num_envs is None:
         return ScriptedEnv(family, action_kind, ep_len, 0)
-    return CountingSyncVectorEnv(family, action_kind, num_envs, ep_len)
+    return CountingSyncVectorEnv(family, action_kind, num_envs, ep_len, mode)
 
 
 # --------------------------------------------------------------------------------------- bandits
@@ -317,9 +346,11 @@ class ScriptedVecParallelEnv:
     sub-environment whose agents are all done is reset inside the same step call and the observation
     returned for it is the first one of the new episode (what the library's worker does)."""
 
-    def __init__(self, family: str = "vector", action_kind: str = "discrete", num_envs: int = 2, ep_len: int = 6):
+    def __init__(self, family: str = "vector", action_kind: str = "discrete", num_envs: int = 2, ep_len=6,
+                 mode: str = "stagger"):
         self.num_envs = int(num_envs)
-        self.envs = [ScriptedParallelEnv(family, action_kind, ep_len + i, i, strict=True, record=False)
+        self.episode_lengths = episode_lengths(ep_len, self.num_envs, mode)
+        self.envs = [ScriptedParallelEnv(family, action_kind, self.episode_lengths[i], i, strict=True, record=False)
                      for i in range(self.num_envs)]
         self.possible_agents = list(AGENT_IDS)
         self.agents = list(AGENT_IDS)
@@ -361,10 +392,10 @@ class ScriptedVecParallelEnv:
         pass
 
 
-def make_multi_env(family: str, action_kind: str, num_envs: int | None, ep_len: int = 6):
+def make_multi_env(family: str, action_kind: str, num_envs: int | None, ep_len: int = 6, mode: str = "stagger"):
     if num_envs is None:
         return ScriptedParallelEnv(family, action_kind, ep_len, 0)
-    return ScriptedVecParallelEnv(family, action_kind, num_envs, ep_len)
+    return ScriptedVecParallelEnv(family, action_kind, num_envs, ep_len, mode)
 
 
 # --------------------------------------------------------------------------------------- offline data
